@@ -11,7 +11,8 @@ targets=""
 for id in $ids; do
   lid=$(echo $id | tr A-Z a-z)
   if ls harness/factextract/facts_${lid}*.go >/dev/null 2>&1; then
-    (cd harness/factextract && go build -o ../../build/factextract_$id main.go irlib.go $(ls facts_${lid}*.go))
+    extra=$(python3 -c "import json;print(' '.join(json.load(open('props/$id.json')).get('facts_extra', [])))")
+    (cd harness/factextract && go build -o ../../build/factextract_$id main.go irlib.go $(ls facts_${lid}*.go) $extra)
     build/factextract_$id -repo /repo -out lean/EgVerif/Gen
   fi
   targets="$targets EgVerif.Props.$id egjudge-$id"
